@@ -2012,6 +2012,9 @@ func (ts *TokenStore) revokeInternal(ctx context.Context, saltedID string, skipO
 	// we do another lookup here to make sure we have the right state
 	entry, err := ts.lookupInternal(ctx, saltedID, true, true)
 	if err != nil {
+		// Nothing was revoked; clear the state so that a retry is not
+		// short-circuited as if the revocation were still in flight.
+		ts.tokensPendingDeletion.Store(saltedID, false)
 		return err
 	}
 	if entry == nil {
@@ -2033,9 +2036,11 @@ func (ts *TokenStore) revokeInternal(ctx context.Context, saltedID string, skipO
 
 	tokenNS, err := ts.core.NamespaceByID(ctx, entry.NamespaceID)
 	if err != nil {
+		ts.tokensPendingDeletion.Store(saltedID, false)
 		return err
 	}
 	if tokenNS == nil {
+		ts.tokensPendingDeletion.Store(saltedID, false)
 		return namespace.ErrNoNamespace
 	}
 
